@@ -85,8 +85,14 @@ class SphinxRenderer(DocutilsRenderer):
         path_dest, *_path_ids = destination.split("#", maxsplit=1)
         path_id = _path_ids[0] if _path_ids else None
         explicit = (token.info != "auto") and (len(token.children or []) > 0)
-        _, abs_path = self.sphinx_env.relfn2path(path_dest, self.sphinx_env.docname)
-        docname = self.sphinx_env.path2doc(abs_path)
+        try:
+            _, abs_path = self.sphinx_env.relfn2path(
+                path_dest, self.sphinx_env.docname
+            )
+            docname = self.sphinx_env.path2doc(abs_path)
+        except ValueError:
+            # e.g. the destination contains a null byte
+            abs_path, docname = path_dest, None
         if not docname:
             self.create_warning(
                 f"Could not find document: {abs_path}",
@@ -140,8 +146,15 @@ class SphinxRenderer(DocutilsRenderer):
 
         potential_path: None | Path = None
         if self.sphinx_env.srcdir:  # not set in some test situations
-            _, path_str = self.sphinx_env.relfn2path(path_dest, self.sphinx_env.docname)
-            potential_path = Path(path_str)
+            try:
+                _, path_str = self.sphinx_env.relfn2path(
+                    path_dest, self.sphinx_env.docname
+                )
+            except ValueError:
+                # e.g. the destination contains a null byte
+                pass
+            else:
+                potential_path = Path(path_str)
 
         is_file = False
         if potential_path:
